@@ -36,7 +36,9 @@ SegRec(e) == [sid |-> e.sid, ext |-> e.ext, delop |-> e.delop]
 NeededFile(p) ==
   \/ p \in metaV[Len(metaV)].files
   \/ /\ p \in DOMAIN segOf
-     /\ LET s == segOf[p] IN \/ \E r \in regs : r.sid = s.sid /\ (s.ext # "del" \/ r.delop = s.delop)
+     \* (<seg>.store.temp, the doc store of a sorted segment before its documents are permuted, is
+     \* only needed while the segment is being finalised)
+     /\ LET s == segOf[p] IN \/ \E r \in regs : r.sid = s.sid /\ s.ext # "store.temp" /\ (s.ext # "del" \/ r.delop = s.delop)
                             \/ s.sid \in building
 
 TReset ==
